@@ -8,7 +8,7 @@
 From Coq Require Import List NArith ZArith Bool Lia Permutation.
 From PM Require Import Base.Bytes Base.Outcome Gen.GenConsts Model.ScriptAst Model.Enqueue Model.Script Model.Device Model.DevHarness
                        Model.Client Model.CliWorld Model.Daemon Spec.Proto
-                       Proofs.ClientProofs Proofs.ClientProto Proofs.ClientStream Proofs.DeviceInv Proofs.DeviceRun Proofs.DaemonLedger.
+                       Proofs.ClientProofs Proofs.ClientProto Proofs.ClientStream Proofs.DeviceInv Proofs.DeviceRun Proofs.DeviceInvG Proofs.DeviceRunG Proofs.DaemonLedger.
 Import ListNotations.
 Local Open Scope Z_scope.
 
@@ -188,7 +188,7 @@ Section P.
   Qed.
 
   (* ---------------------------------------------------------------- the device pass *)
-  Notation DevsInv := (Forall (DInvR compress)).
+  Notation DevsInv := (Forall (DInvRG compress)).
 
   Lemma qall_upd id : forall devs i d d', nth_error devs i = Some d ->
     cnt id (qall (upd_nth devs i (fun _ => d'))) + cnt id (queued d) = cnt id (qall devs) + cnt id (queued d').
@@ -204,7 +204,7 @@ Section P.
     - inversion H; subst. apply incl_app; [apply incl_appl; exact Hi|apply incl_appr, incl_refl].
     - apply incl_app; [apply incl_appl, incl_refl|apply incl_appr; eapply IH; eauto].
   Qed.
-  Lemma DevsInv_upd : forall devs i d', DevsInv devs -> DInvR compress d' -> DevsInv (upd_nth devs i (fun _ => d')).
+  Lemma DevsInv_upd : forall devs i d', DevsInv devs -> DInvRG compress d' -> DevsInv (upd_nth devs i (fun _ => d')).
   Proof.
     induction devs as [|a r IH]; intros [|i] d' H Hd; cbn [upd_nth]; [constructor|constructor| |]; inversion H; subst; constructor; auto.
   Qed.
@@ -232,49 +232,46 @@ Section P.
   }.
 
   Lemma dev_loop_inv n : forall now st i pins tmo acc,
-    DPInv st -> all_pipe st -> pins_plain pins -> tmo_pos tmo ->
+    DPInv st -> tmo_pos tmo ->
     match dev_loop ranged_sorted rmatch compress short_circuit n now st i pins tmo acc with
-    | Ok (st', tmo', evs) => DPInv st' /\ all_pipe st' /\ tmo_pos tmo' /\ ids st' = ids st /\ dm_seq st' = dm_seq st /\ length (dm_devs st') = length (dm_devs st) /\ exists new, evs = acc ++ new
+    | Ok (st', tmo', evs) => DPInv st' /\ tmo_pos tmo' /\ ids st' = ids st /\ dm_seq st' = dm_seq st /\ length (dm_devs st') = length (dm_devs st) /\ exists new, evs = acc ++ new
     | Hang _ => True
     | _ => False
     end.
   Proof.
-    induction n as [|n IH]; intros now st i pins tmo acc I Hpipe Hpl Hp; cbn [dev_loop].
-    - split; [exact I|]. split; [exact Hpipe|]. split; [exact Hp|]. repeat (split; [reflexivity|]). exists []. now rewrite app_nil_r.
+    induction n as [|n IH]; intros now st i pins tmo acc I Hp; cbn [dev_loop].
+    - split; [exact I|]. split; [exact Hp|]. repeat (split; [reflexivity|]). exists []. now rewrite app_nil_r.
     - destruct (nth_error (dm_devs st) i) as [d|] eqn:En;
-        [|split; [exact I|]; split; [exact Hpipe|]; split; [exact Hp|]; repeat (split; [reflexivity|]); exists []; now rewrite app_nil_r].
-      rewrite (Hpipe i), with_pre_pipe.
-      assert (Hd : DInvR compress d) by (pose proof (dp_devs _ I) as H; rewrite Forall_forall in H; apply H; eapply nth_error_In; exact En).
+        [|split; [exact I|]; split; [exact Hp|]; repeat (split; [reflexivity|]); exists []; now rewrite app_nil_r].
+      destruct (with_pre (nth i (dm_pipe st) true) (nth i (dm_tel st) Telnet.telnet_init) (hd passin0 pins)) as [pin t1].
+      assert (Hd : DInvRG compress d) by (pose proof (dp_devs _ I) as H; rewrite Forall_forall in H; apply H; eapply nth_error_In; exact En).
       destruct Hd as [Hd Hrc].
-      assert (Hpre : pi_pre (hd passin0 pins) = None) by (destruct pins; [reflexivity|inversion Hpl; assumption]).
-      pose proof (post_poll_one_inv rmatch compress short_circuit now d (dm_store st) tmo (hd passin0 pins) Hd Hp Hrc Hpre) as H1.
-      destruct (post_poll_one rmatch compress short_circuit now d (dm_store st) tmo (hd passin0 pins)) as [[[[d' store'] tmo'] evs]| | | |]; try contradiction; [|exact Logic.I].
+      pose proof (post_poll_one_inv_pre rmatch compress short_circuit now d (dm_store st) tmo pin Hd Hp Hrc) as H1.
+      destruct (post_poll_one rmatch compress short_circuit now d (dm_store st) tmo pin) as [[[[d' store'] tmo'] evs]| | | |]; try contradiction; [|exact Logic.I].
       destruct H1 as [SP TK].
       match goal with |- context [route_all ranged_sorted ?s evs] => set (st1 := s) end.
       assert (Hids1 : ids st1 = ids st) by reflexivity.
       assert (Hc1 : CInv (completions evs ++ []) (dm_devs st1) (dm_clients st1)).
-      { rewrite app_nil_r. unfold st1. cbn [dm_devs dm_clients]. eapply CInv_after_pass; [exact En|exact (st_fifo _ _ _ _ _ _ _ _ _ SP)|exact (dp_cinv _ I)]. }
+      { rewrite app_nil_r. unfold st1. cbn [dm_devs dm_clients]. eapply CInv_after_pass; [exact En|exact (tg_fifo _ _ _ _ _ _ _ _ _ SP)|exact (dp_cinv _ I)]. }
       destruct (route_all_CInv evs [] st1) as (st2 & E2 & C2 & A1 & A2 & A3 & A4 & A5 & A6); [rewrite Hids1; exact (dp_nodup _ I)|exact Hc1|].
       rewrite E2.
       assert (I2 : DPInv st2).
       { constructor.
         - rewrite A2. unfold st1. cbn [dm_devs]. apply DevsInv_upd; [exact (dp_devs _ I)|].
-          split; [exact (st_inv _ _ _ _ _ _ _ _ _ SP)|exact (conn_rel_rc _ _ _ _ (st_conn _ _ _ _ _ _ _ _ _ SP) Hrc)].
+          split; [exact (tg_inv _ _ _ _ _ _ _ _ _ SP)|exact (conn_rel_rc _ _ _ _ (tg_conn _ _ _ _ _ _ _ _ _ SP) Hrc)].
         - rewrite A1, Hids1. exact (dp_nodup _ I).
         - exact C2.
         - rewrite A2, A1, A3, Hids1. unfold st1. cbn [dm_devs dm_seq].
           pose proof (dp_qseq _ I) as Hq. rewrite Forall_forall in *. intros x Hx. apply Hq.
           apply in_app_or in Hx. apply in_or_app. destruct Hx as [Hx|Hx]; [left|right; exact Hx].
           eapply qall_upd_incl; [exact En| |exact Hx].
-          rewrite <- (st_fifo _ _ _ _ _ _ _ _ _ SP). apply incl_appr, incl_refl. }
-      assert (Hpipe2 : all_pipe st2) by (unfold all_pipe; rewrite A5; exact Hpipe).
-      specialize (IH now st2 (S i) (tl pins) tmo' (acc ++ map (SysDev i) evs) I2 Hpipe2).
-      assert (Hpl' : pins_plain (tl pins)) by (destruct pins; [constructor|inversion Hpl; assumption]).
-      specialize (IH Hpl' (st_pos _ _ _ _ _ _ _ _ _ SP)).
+          rewrite <- (tg_fifo _ _ _ _ _ _ _ _ _ SP). apply incl_appr, incl_refl. }
+      specialize (IH now st2 (S i) (tl pins) tmo' (acc ++ map (SysDev i) evs) I2).
+      specialize (IH (tg_pos _ _ _ _ _ _ _ _ _ SP)).
       destruct (dev_loop ranged_sorted rmatch compress short_circuit n now st2 (S i) (tl pins) tmo' (acc ++ map (SysDev i) evs)) as [[[st3 tmo3] evs3]| | | |]; try contradiction; [|exact Logic.I].
-      destruct IH as (I3 & P3 & T3 & B1 & B2 & B3 & new & ->).
+      destruct IH as (I3 & T3 & B1 & B2 & B3 & new & ->).
       assert (Hseq1 : dm_seq st1 = dm_seq st) by reflexivity.
-      split; [exact I3|]. split; [exact P3|]. split; [exact T3|]. split; [congruence|]. split; [congruence|].
+      split; [exact I3|]. split; [exact T3|]. split; [congruence|]. split; [congruence|].
       split.
       { rewrite B3, A2. unfold st1. cbn [dm_devs]. clear. generalize (dm_devs st). intros l. revert i. induction l as [|a l IHl]; intros [|i]; cbn; auto. }
       exists (map (SysDev i) evs ++ new). now rewrite app_assoc.
@@ -307,17 +304,17 @@ Section P.
     intros Hcom. induction devs as [|d r IH]; intros Hd; cbn [map enqueue enq_all].
     - exists []. repeat split; auto. intros i. cbn. destruct (Z.eq_dec i id); lia. intros x [].
     - inversion Hd as [|? ? [I Hrc] Hr]; subst.
-      destruct (fold_append_inv compress id tele args (enqueue_dev (edev_of d) com tgts) d I) as (d1 & E1 & I1 & S1 & Q1 & C1 & R1 & L1).
+      destruct (fold_append_invG compress id tele args (enqueue_dev (edev_of d) com tgts) d I) as (d1 & E1 & I1 & S1 & Q1 & C1 & R1 & L1).
       { intros q Hin. now apply (enqueue_dev_props d com tgts q). }
       unfold enqueue in *. cbn [map enq_all snd]. rewrite E1.
       destruct (IH Hr) as (r' & E2 & H2 & N2 & K2 & J2). rewrite E2.
       set (acts := enqueue_dev (edev_of d) com tgts) in *.
       set (d2 := match acts with [] => d1 | _ => expedite d1 end).
       assert (Hrc1 : 0 <= dv_retry_count d1) by (rewrite R1; exact Hrc).
-      assert (H3 : DInvR compress d2 /\ queued d2 = queued d ++ repeat id (length acts)).
+      assert (H3 : DInvRG compress d2 /\ queued d2 = queued d ++ repeat id (length acts)).
       { unfold d2. destruct acts as [|q0 qs] eqn:Eq.
         - split; [split; [exact I1|exact Hrc1]|exact Q1].
-        - destruct (expedite_inv compress d1 (conj I1 Hrc1)) as (X1 & X2 & X3). split; [exact X1|]. rewrite X3. exact Q1. }
+        - destruct (expedite_invG compress d1 (conj I1 Hrc1)) as (X1 & X2 & X3). split; [exact X1|]. rewrite X3. exact Q1. }
       destruct H3 as [X1 X3].
       eexists. split; [reflexivity|]. split; [constructor; assumption|]. split; [cbn; now rewrite N2|]. split.
       + intros i. unfold qall in *. cbn [flat_map total fold_right snd]. rewrite !cnt_app, X3, cnt_app, (K2 i).
@@ -489,20 +486,20 @@ Section P.
 
   (* one pass of the select loop: from a state that satisfies the cross-layer invariant, with coprocess devices only,
      the pass never aborts / exits / corrupts memory, and re-establishes the invariant *)
-  Theorem dstep_inv st r : DPInv st -> all_pipe st -> pins_plain (r_dev r) -> 1 <= dm_seq st < INT_MAX ->
+  Theorem dstep_inv st r : DPInv st -> 1 <= dm_seq st < INT_MAX ->
     match dstep expand_str ranged_sorted ranged_plain sorted rmatch compress short_circuit st r with
-    | Ok (st', o) => DPInv st' /\ all_pipe st' /\ (forall t, do_tmo o = Some t -> 0 < t) /\ length (dm_devs st') = length (dm_devs st) /\
+    | Ok (st', o) => DPInv st' /\ (forall t, do_tmo o = Some t -> 0 < t) /\ length (dm_devs st') = length (dm_devs st) /\
                      dm_seq st <= dm_seq st' <= dm_seq st + 1
     | Hang _ => True
     | _ => False
     end.
   Proof.
-    intros I Hpipe Hpl Hseq. unfold dstep, cli_post_poll.
+    intros I Hseq. unfold dstep, cli_post_poll.
     set (sa := if r_accept r then _ else _).
-    assert (Ha : DPInv (fst sa) /\ all_pipe (fst sa) /\ length (dm_devs (fst sa)) = length (dm_devs st) /\ dm_seq st <= dm_seq (fst sa) <= dm_seq st + 1).
-    { unfold sa. destruct (r_accept r); [|cbn [fst]; split; [exact I|split; [exact Hpipe|split; [reflexivity|lia]]]].
+    assert (Ha : DPInv (fst sa) /\ length (dm_devs (fst sa)) = length (dm_devs st) /\ dm_seq st <= dm_seq (fst sa) <= dm_seq st + 1).
+    { unfold sa. destruct (r_accept r); [|cbn [fst]; split; [exact I|split; [reflexivity|lia]]].
       unfold next_id. fold INT_MAX. destruct (dm_seq st <? INT_MAX) eqn:E; [|apply Z.ltb_ge in E; lia]. cbn [fst].
-      split; [|split; [exact Hpipe|split; [reflexivity|cbn [dm_seq]; lia]]].
+      split; [|split; [reflexivity|cbn [dm_seq]; lia]].
       pose proof (dp_qseq _ I) as Hq. rewrite Forall_forall in Hq.
       constructor; cbn [dm_devs dm_clients dm_seq].
       - exact (dp_devs _ I).
@@ -517,53 +514,52 @@ Section P.
         rewrite app_assoc in Hz. apply in_app_or in Hz as [Hz|[<-|[]]].
         + specialize (Hq z Hz). lia.
         + unfold cid. cbn. lia. }
-    destruct sa as [sta e1]. cbn [fst] in Ha. destruct Ha as (Ia & Pa & La & Sa).
+    destruct sa as [sta e1]. cbn [fst] in Ha. destruct Ha as (Ia & La & Sa).
     destruct (cli_loop_inv (pad_cins (length (dm_clients sta)) (r_cli r)) sta 0 e1 Ia) as (stb & e2 & El & Ib & Sb). rewrite El.
     destruct Sb as (B1 & B2 & B3).
-    assert (Pb : all_pipe stb) by (unfold all_pipe; rewrite B1; exact Pa).
-    pose proof (dev_loop_inv (length (dm_devs stb)) (r_now r) stb 0 (r_dev r) None [] Ib Pb Hpl) as Hd.
+    pose proof (dev_loop_inv (length (dm_devs stb)) (r_now r) stb 0 (r_dev r) None [] Ib) as Hd.
     assert (Hn : tmo_pos None) by (intros x Hx; discriminate). specialize (Hd Hn).
     destruct (dev_loop ranged_sorted rmatch compress short_circuit (length (dm_devs stb)) (r_now r) stb 0 (r_dev r) None []) as [[[stc tmo] e3]| | | |]; try contradiction; [|exact Logic.I].
-    destruct Hd as (Ic & Pc & Tc & _ & Sc & Lc & _). cbn [do_tmo]. split; [exact Ic|]. split; [exact Pc|]. split; [exact Tc|]. split; lia.
+    destruct Hd as (Ic & Tc & _ & Sc & Lc & _). cbn [do_tmo]. split; [exact Ic|]. split; [exact Tc|]. split; lia.
   Qed.
 
   (* ---------------------------------------------------------------- every history *)
   Definition rounds_plain (rs : list round) : Prop := Forall (fun r => pins_plain (r_dev r)) rs.
 
-  Theorem drun_inv : forall rs st acc, DPInv st -> all_pipe st -> rounds_plain rs ->
+  Theorem drun_inv : forall rs st acc, DPInv st ->
     1 <= dm_seq st -> dm_seq st + Z.of_nat (length rs) <= INT_MAX ->
     match drun expand_str ranged_sorted ranged_plain sorted rmatch compress short_circuit st rs acc with
-    | Ok (st', outs) => DPInv st' /\ all_pipe st' /\ length (dm_devs st') = length (dm_devs st) /\
+    | Ok (st', outs) => DPInv st' /\ length (dm_devs st') = length (dm_devs st) /\
                         exists new, outs = acc ++ new /\ Forall (fun o => forall t, do_tmo o = Some t -> 0 < t) new
     | Hang _ => True
     | _ => False
     end.
   Proof.
-    induction rs as [|r rs IH]; intros st acc I Hp Hr H1 Hn; cbn [drun].
-    - split; [exact I|]. split; [exact Hp|]. split; [reflexivity|]. exists []. split; [now rewrite app_nil_r|constructor].
-    - inversion Hr as [|? ? Hr1 Hr2]; subst. cbn [length] in Hn.
-      pose proof (dstep_inv st r I Hp Hr1 ltac:(lia)) as Hs.
+    induction rs as [|r rs IH]; intros st acc I H1 Hn; cbn [drun].
+    - split; [exact I|]. split; [reflexivity|]. exists []. split; [now rewrite app_nil_r|constructor].
+    - cbn [length] in Hn.
+      pose proof (dstep_inv st r I ltac:(lia)) as Hs.
       destruct (dstep expand_str ranged_sorted ranged_plain sorted rmatch compress short_circuit st r) as [[st1 o]| | | |]; try contradiction; [|exact Logic.I].
-      destruct Hs as (I1 & P1 & T1 & L1 & S1).
-      specialize (IH st1 (acc ++ [o]) I1 P1 Hr2 ltac:(lia) ltac:(lia)).
+      destruct Hs as (I1 & T1 & L1 & S1).
+      specialize (IH st1 (acc ++ [o]) I1 ltac:(lia) ltac:(lia)).
       destruct (drun expand_str ranged_sorted ranged_plain sorted rmatch compress short_circuit st1 rs (acc ++ [o])) as [[st' outs]| | | |]; try contradiction; [|exact Logic.I].
-      destruct IH as (I' & P' & L' & new & -> & F'). split; [exact I'|]. split; [exact P'|]. split; [congruence|].
+      destruct IH as (I' & L' & new & -> & F'). split; [exact I'|]. split; [congruence|].
       exists (o :: new). split; [now rewrite <- app_assoc|]. constructor; assumption.
   Qed.
 
   (* start-up: no client yet, devices as the parser leaves them *)
   Definition boot (st : daemon) : Prop :=
     dm_clients st = [] /\ dm_seq st = 1 /\
-    Forall (fun d => DInvR compress d /\ dv_cstate d = DEV_NOT_CONNECTED /\ queued d = []) (dm_devs st).
+    Forall (fun d => DInvRG compress d /\ dv_cstate d = DEV_NOT_CONNECTED /\ queued d = []) (dm_devs st).
 
   Lemma init_loop_inv now : forall devs plans i,
-    Forall (fun d => DInvR compress d /\ dv_cstate d = DEV_NOT_CONNECTED /\ queued d = []) devs ->
+    Forall (fun d => DInvRG compress d /\ dv_cstate d = DEV_NOT_CONNECTED /\ queued d = []) devs ->
     exists devs' evs, init_loop now devs plans i = Ok (devs', evs) /\ DevsInv devs' /\ qall devs' = [] /\ length devs' = length devs.
   Proof.
     induction devs as [|d r IH]; intros plans i H; cbn [init_loop].
     - exists [], []. repeat split; auto.
     - inversion H as [|? ? ([I Hrc] & Hc & Hq) Hr]; subst.
-      destruct (connect_inv compress now d (hd [] plans) I Hc) as (d1 & pl & E1 & _ & I1 & _ & Q1 & _ & R1 & _).
+      destruct (connect_invG compress now d (hd [] plans) I Hc) as (d1 & pl & E1 & _ & I1 & _ & Q1 & _ & R1 & _).
       rewrite E1. destruct (IH (tl plans) (S i) Hr) as (r' & e2 & E2 & H2 & Q2 & N2). rewrite E2.
       eexists _, _. split; [reflexivity|]. split; [constructor; [split; [exact I1|lia]|exact H2]|].
       split; [unfold qall in *; cbn [flat_map]; now rewrite Q1, Hq, Q2|cbn; now rewrite N2].
@@ -581,7 +577,7 @@ Section P.
   Qed.
 
   (* the statements C04 / C02 / C06 / C07 / C11 quote: from start-up, over every history of passes *)
-  Theorem daemon_invariant st now plans rs : boot st -> all_pipe st -> rounds_plain rs -> Z.of_nat (length rs) < INT_MAX - 1 ->
+  Theorem daemon_invariant st now plans rs : boot st -> Z.of_nat (length rs) < INT_MAX - 1 ->
     exists st1 o, dinit st now plans = Ok (st1, o) /\
       match drun expand_str ranged_sorted ranged_plain sorted rmatch compress short_circuit st1 rs [] with
       | Ok (st', outs) =>
@@ -594,11 +590,10 @@ Section P.
       | _ => False                (* never Exit / Abort / MemErr: in particular _act_finish always finds its command *)
       end.
   Proof.
-    intros Hb Hp Hr Hn. destruct (dinit_inv st now plans Hb) as (st1 & o & E & I1 & S1 & P1 & _ & _).
+    intros Hb Hn. destruct (dinit_inv st now plans Hb) as (st1 & o & E & I1 & S1 & P1 & _ & _).
     exists st1, o. split; [exact E|].
-    assert (Hp1 : all_pipe st1) by (unfold all_pipe; rewrite P1; exact Hp).
-    pose proof (drun_inv rs st1 [] I1 Hp1 Hr ltac:(lia) ltac:(rewrite S1; unfold INT_MAX in *; lia)) as H.
+    pose proof (drun_inv rs st1 [] I1 ltac:(lia) ltac:(rewrite S1; unfold INT_MAX in *; lia)) as H.
     destruct (drun expand_str ranged_sorted ranged_plain sorted rmatch compress short_circuit st1 rs []) as [[st' outs]| | | |]; try contradiction; [|exact Logic.I].
-    destruct H as (I' & _ & _ & new & -> & F). cbn [app]. split; [exact (dp_cinv _ I')|]. split; [exact (dp_nodup _ I')|]. split; [exact (dp_devs _ I')|exact F].
+    destruct H as (I' & _ & new & -> & F). cbn [app]. split; [exact (dp_cinv _ I')|]. split; [exact (dp_nodup _ I')|]. split; [exact (dp_devs _ I')|exact F].
   Qed.
 End P.
